@@ -62,6 +62,19 @@ def corpus():
                              events=['0 = E "section a"', '0 = E "lyric b"', '0 = E "c"', '64 = E "lyric d"'], tracks={"ExpertSingle": g_a})
     texts["S2"] = chart_text(res=192, song=['Name = "S"'], sync=["0 = B 120000", "0 = A 0", "0 = TS 4", "128 = TS 3 3", "256 = B 60000", "128 = B 90500"][:5] + ["300 = B 60000"],
                              events=['0 = E "c"', '0 = E "lyric b"', '0 = E "section a"', '64 = E "lyric d"'], tracks={"ExpertSingle": g_a})
+    # F1..F5: texts that FAIL to parse, each in another phase and only after part of the phase's work is done (a tempo chain
+    # that breaks at its third event, a zero tempo met by a late event, a time signature missing at tick 0, a section whose
+    # fourth note is rejected, a header that does not match after two good sections); F2 shares F1's resolution and tempo
+    # lines but nothing else.  A failed parse must leave nothing behind - not for a later parse of the SAME text either.
+    bad_sync = ["0 = TS 4", "0 = B 120000", "128 = B 90500", "128 = B 60000", "300 = B 100000"]
+    texts["F1"] = chart_text(res=192, song=['Name = "F1"'], sync=bad_sync, events=ev, tracks={"ExpertSingle": g_a})
+    texts["F2"] = chart_text(res=192, song=['Name = "F2"'], sync=bad_sync, events=[], tracks={"HardDrums": ["0 = N 1 0"]})
+    texts["F3"] = chart_text(res=192, song=['Name = "F3"'], sync=["0 = TS 4", "0 = B 120000", "128 = B 0", "256 = TS 3"], events=ev,
+                             tracks={"ExpertSingle": g_a})
+    texts["F4"] = chart_text(res=192, song=['Name = "F4"'], sync=["0 = B 120000", "10 = TS 4", "128 = B 90500"], events=ev, tracks={"ExpertSingle": g_a})
+    texts["F5"] = chart_text(res=192, song=['Name = "F5"'], sync=sync, events=ev,
+                             tracks={"HardDrums": ["0 = N 1 0", "50 = N 2 0"], "ExpertSingle": ["0 = N 0 0", "64 = N 1 0", "128 = N 2 0", "100 = N 3 0", "100 = N 5 0"]})
+    texts["F6"] = chart_text(res=192, song=['Name = "F6"'], sync=sync, events=ev, tracks={"ExpertSingle": g_a}) + "stray line\n[Events2]\n{\n}\n"
     wants = {"As": [["DRUMS", "HARD"], ["KEYS", "EASY"]],
              "Ms": [["KEYS", "EXPERT"], ["GUITAR", "EASY"], ["BASS", "HARD"], ["GUITAR", "EXPERT"], ["DRUMS", "EXPERT"], ["GUITAR", "MEDIUM"]]}
     return texts, wants
@@ -162,6 +175,8 @@ def run(ctx):
         recs.append({"id": cid, "props": ["C17"], "kind": kind, "parses": [{"text": p["text"], "got": p["got"], "want": p["want"]} for p in parses],
                      "hung": bool(res.get("hung", False)), "errors": res.get("errors", [])})
         info[cid] = detail
+        if res.get("freerun"):
+            ctx.count("schedules_that_stalled_and_were_finished_by_free_running_threads")
         ctx.evaluations += 1
         ctx.distinct([kind, detail])
 
@@ -172,6 +187,8 @@ def run(ctx):
         seq = th[sorted(th)[0]] if isinstance(th, dict) else th[0]
         if seq:
             seqs.append(seq)
+    seqs += [["F1", "F1"], ["F1", "F2"], ["F2", "F1", "A"], ["F1", "A", "F1", "F1"], ["F3", "F3"], ["F3", "A", "F3"], ["F4", "F4"], ["F5", "F5"], ["F5", "A", "F5"],
+             ["F6", "F6"], ["F6", "A"], ["F1", "F3", "F4", "F5", "F6", "A", "F1", "F3", "F4", "F5", "F6"]]
     seqs += [["R2", "R1"], ["R3", "R1"], ["R1", "R2", "R1"], ["R2", "R3", "R2", "R1", "R1"], ["R1", "R3", "R2"], ["S1", "S2", "S1"], ["S2", "S1"], ["A", "S2", "R1", "S1"]]
     seqs += [["Ms"], ["M"], ["Ms", "M", "Ms"], ["Ms"], ["Ms"], ["Ms"], ["Ms"], ["Ms"], ["M", "Ms"], ["Z", "A"], ["Z", "B", "A"], ["A", "Z", "A"], ["Z", "X", "Z", "A"], ["Z", "C", "D"], ["As", "A", "As"], ["A", "As"], ["X", "As", "A"], ["Y", "X", "Y", "A", "B", "A"], ["B", "A", "B", "A", "C", "D", "C"]]
     for _ in range(ctx.pick(40, 600)):
